@@ -57,6 +57,22 @@ CLAIMS = {
         "Process-kill model (no lost page cache); CPython's real io stack decides what reaches the kernel; time.time constant inside the module; strace/ptrace must be permitted (otherwise the SQLite part is skipped and says so).",
         "DESIGN.md §3 C13",
     ),
+    "C04": (
+        "exploration",
+        "bounded-exhaustive enumeration of argument strings x literal/injection forms x positions through the real Execer, argv compared on three delivery paths with a docs-derived reference",
+        "gramx",
+        "Every string of length <= 2 (thorough 3) over a 30-character metacharacter alphabet plus probe closure, in 19 writing forms (plain, quoted, raw, f-, triple-quoted, @() scalar/list/generator, glue, three macro forms), 5 positions and both $EXPAND_ENV_VARS settings is executed through Execer -> parser -> run_subproc; the argv observed by a threaded alias, an unthreaded alias and a real child process must agree with each other and with a reference written from the documentation.",
+        "No NUL/lone surrogates; longer values only through probes; the child is a dash script; where the docs are silent (${NAME}, ~ after =, f-string formatting order) every reading is accepted; macro text that is unbalanced, ends in a backslash or contains # is out of scope.",
+        "DESIGN.md §3 C04",
+    ),
+    "C07": (
+        "exploration",
+        "exhaustive enumeration of redirect spellings x stage kinds x positions x capture forms x targets executed in forked processes with harness-owned terminal fds, compared with a docs-derived router",
+        "gramx",
+        "Every documented and decoding-table redirect spelling (50) x stage kind x pipeline position x capture form x target state, all ordered pairs of operator classes on one stage, and the malformed / unusable-target forms are executed through the real Execer in a forked process whose fds 0/1/2 belong to the harness; file contents, next-stage stdin, capture value and terminal fds are compared with a table-driven router written from docs/tutorial.rst; documented spellings of one operator must be byte-identical.",
+        "THREAD_SUBPROCS=True, non-interactive, non-tty terminal, <= 3 stages and <= 2 redirects per stage, well-behaved stages; no ordering between stdout and stderr bytes in one sink; merge-operator combinations may follow any of three documented readings.",
+        "DESIGN.md §3 C07",
+    ),
 }
 
 NOT_YET = "check not built yet (work in progress in this round; see DESIGN.md §3 for the planned exploration)"
@@ -65,7 +81,7 @@ ENGINES = [
     {"name": "crashx", "path": "xv/crashx.py", "serves_properties": ["C13"], "kind_free_text": "records the file-operation log of a write history through shims bound into the module under test, then enumerates every crash point, torn write and failing call in forked children; strace syscall injection for libsqlite3"},
     {"name": "pysched", "path": "xv/pysched.py", "serves_properties": ["C11", "C12"], "kind_free_text": "stateless preemption-bounded exploration of real CPython threads: baton scheduler, line-event scheduling points in named functions, cooperative Lock/Condition/sleep/join shims, DFS over choice prefixes with replay-divergence detection"},
     {"name": "seqx", "path": "xv/seqx.py", "serves_properties": ["C11", "C12", "C16", "C20"], "kind_free_text": "explicit-state breadth-first search whose transitions call the real entry points on a freshly replayed implementation; canonical state hashing; lock-step reference"},
-    {"name": "gramx", "path": "xv/", "serves_properties": ["C15"], "kind_free_text": "bounded-exhaustive enumeration of structured inputs run through the real implementation, compared with a reference"},
+    {"name": "gramx", "path": "xv/", "serves_properties": ["C04", "C07", "C15"], "kind_free_text": "bounded-exhaustive enumeration of structured inputs run through the real implementation, compared with a reference"},
 ]
 
 
